@@ -567,6 +567,16 @@ func (w *writer) entity(depth int, e *Entity) {
 		}
 		w.line(depth+1, "}")
 	}
+	for _, n := range e.Nested {
+		switch {
+		case n.Object != nil:
+			w.object(depth+1, "object", n.Object)
+		case n.Enum != nil:
+			w.enum(depth+1, n.Enum)
+		case n.Oneof != nil:
+			w.oneof(depth+1, n.Oneof)
+		}
+	}
 	for _, ev := range e.Events {
 		w.line(depth+1, "event "+ev.Name+" {")
 		for _, f := range ev.Fields {
